@@ -71,6 +71,11 @@ class DriverGen:
             if field_kind(s, f) == "S":
                 c.append("    case %d: return mh::show(v.%s());" % (k, f.name))
         c.append("    default: return \"ERRK\"; }")
+        c.append("  if(c.op == \"getfc\") switch(c.k) {")
+        for k, f in enumerate(nf):
+            if field_kind(s, f) == "S":
+                c.append("    case %d: return mh::show_choices(v.%s());" % (k, f.name))
+        c.append("    default: return \"ERRK\"; }")
         c.append("  if(c.op == \"setf\") switch(c.k) {")
         for k, f in enumerate(nf):
             if field_kind(s, f) == "S":
